@@ -146,7 +146,17 @@ func (lb *LB) loopTerminates(h *ssa.BasicBlock) loopVerdict {
 					}
 					saved := lb.curBlock
 					lb.curBlock = p
-					ok := lb.proveWith(mk(i), append(lb.edgeFacts(p, h), lb.extra...), map[lvar]lin{}, searchDepth)
+					facts := append(lb.edgeFacts(p, h), lb.extra...)
+					// a header that tests a boolean loop variable (`for more := true; more; more = rest != nil`):
+					// only iterations that pass the test again matter for termination, and on those the value the
+					// variable takes over this back edge holds (or fails, if the true branch leaves the loop)
+					if ifi, okIf := lastIf(h); okIf {
+						if bp, isPhi := ifi.Cond.(*ssa.Phi); isPhi && bp.Block() == h && i < len(bp.Edges) {
+							stay := blocks[h.Succs[0]]
+							facts = append(facts, lb.condFacts(bp.Edges[i], stay)...)
+						}
+					}
+					ok := lb.proveWith(mk(i), facts, map[lvar]lin{}, searchDepth)
 					lb.curBlock = saved
 					if !ok {
 						return false
